@@ -156,15 +156,57 @@ def unbound_locals(fn: ast.FunctionDef) -> list[tuple[str, ast.AST]]:
             return {(a, f) for f, a in by.items()}
 
         def check(self, state, node):
-            for c in loads(node):
-                if c.id not in state[0] and c.id not in comp_targets:
-                    problems.append((c.id, c))
+            """Report loads of unassigned locals in evaluation order; returns the names the expression definitely binds
+            itself (`x := ...` outside the conditionally evaluated parts)."""
+            skip = {id(c) for c in loads(node)}        # loads() filters comprehension targets and non-locals
+
+            def ev(e, have):
+                if e is None:
+                    return have
+                if isinstance(e, ast.Name):
+                    if isinstance(e.ctx, ast.Load) and id(e) in skip and e.id not in have and e.id not in comp_targets:
+                        problems.append((e.id, e))
+                    return have
+                if isinstance(e, ast.NamedExpr):
+                    return ev(e.value, have) | {e.target.id}
+                if isinstance(e, ast.IfExp):
+                    h = ev(e.test, have)
+                    ev(e.body, h)
+                    ev(e.orelse, h)
+                    return h
+                if isinstance(e, ast.BoolOp):
+                    h = ev(e.values[0], have)
+                    cur = h
+                    for v in e.values[1:]:
+                        cur = ev(v, cur)
+                    return h
+                if isinstance(e, (ast.ListComp, ast.SetComp, ast.DictComp, ast.GeneratorExp)):
+                    h = ev(e.generators[0].iter, have)
+                    cur = h
+                    for i, g in enumerate(e.generators):
+                        if i:
+                            cur = ev(g.iter, cur)
+                        for c in g.ifs:
+                            cur = ev(c, cur)
+                    for part in ((e.key, e.value) if isinstance(e, ast.DictComp) else (e.elt,)):
+                        cur = ev(part, cur)
+                    return h
+                if isinstance(e, ast.Lambda):
+                    ev(e.body, have)
+                    return have
+                cur = have
+                for c in ast.iter_child_nodes(e):
+                    cur = ev(c, cur)
+                return cur
+            return frozenset(ev(node, set(state[0]))) - state[0]
 
         def stmt(self, state, node):
             if isinstance(node, ast.Assign):
                 self.check(state, node.value)
             elif isinstance(node, ast.AugAssign):
-                self.check(state, node)
+                self.check((state[0] - {node.target.id} if isinstance(node.target, ast.Name) else state[0], state[1]), node.value)
+                if isinstance(node.target, ast.Name) and node.target.id in local and node.target.id not in state[0]:
+                    problems.append((node.target.id, node.target))
             elif isinstance(node, ast.AnnAssign):
                 if node.value is not None:
                     self.check(state, node.value)
@@ -177,7 +219,9 @@ def unbound_locals(fn: ast.FunctionDef) -> list[tuple[str, ast.AST]]:
             return (state[0] | frozenset(new), facts)
 
         def branch(self, state, test):
-            self.check(state, test)
+            bound = self.check(state, test)
+            if bound:
+                state = (state[0] | bound, frozenset((k, v) for k, v in state[1] if k not in bound))
             t, neg = test, False
             while isinstance(t, ast.UnaryOp) and isinstance(t.op, ast.Not):
                 t, neg = t.operand, not neg
@@ -574,6 +618,12 @@ class ExcFlow:
                         and unparse(t.left) == unparse(sub.slice) and unparse(t.comparators[0]) == unparse(sub.value):
                     return True, f'guarded by `{unparse(t)}`'
             child, cur = cur, mod.parents.get(cur)
+        vs = self.value_set(mod, fn, sub.slice)
+        if vs is not None:
+            missing = sorted(map(repr, vs - keys))
+            if missing:
+                return False, f'the key can be {missing[0]} (values {sorted(map(repr, vs))}), which is not a key of the table {sorted(map(str, keys))}'
+            return True, f'key values {sorted(map(repr, vs))} are all keys of the table'
         e = sub.slice
         lowered = False
         seen = 0
@@ -618,6 +668,93 @@ class ExcFlow:
         if missing:
             return False, f'the key can be {missing[0]!r} (values {sorted(values)}), which is not a key of the table {sorted(map(str, keys))}'
         return True, f'key values {sorted(values)} are all keys of the table'
+
+    # ---- finite value sets of local expressions ------------------------------------------------------------------
+    def value_set(self, mod, fn, e, depth=0):
+        """The finite set of constants the expression can denote in fn (constants, conditionals, locals with constant
+        definitions, loop variables over constant tables or over a field of the package's NamedTuple records), else None."""
+        if depth > 5 or e is None:
+            return None
+        v = self.inv.folder.try_ev(mod.name, e, default=None)
+        if v is not None and isinstance(v, (str, int, bool, float, bytes)):
+            return {v}
+        if isinstance(e, ast.IfExp):
+            a, b = self.value_set(mod, fn, e.body, depth + 1), self.value_set(mod, fn, e.orelse, depth + 1)
+            return None if a is None or b is None else a | b
+        if isinstance(e, ast.Name) and fn is not None:
+            out = set()
+            n_defs = 0
+            nodes = list(walk_no_nested(fn))
+            for st in nodes:
+                vals = None
+                if isinstance(st, ast.Assign) and any(isinstance(t, ast.Name) and t.id == e.id for t in st.targets):
+                    vals = self.value_set(mod, fn, st.value, depth + 1)
+                elif isinstance(st, ast.AnnAssign) and isinstance(st.target, ast.Name) and st.target.id == e.id and st.value is not None:
+                    vals = self.value_set(mod, fn, st.value, depth + 1)
+                elif isinstance(st, (ast.For, ast.comprehension)) and isinstance(st.target, ast.Name) and st.target.id == e.id:
+                    vals = self.element_set(mod, fn, st.iter, depth + 1)
+                elif isinstance(st, ast.Name) and isinstance(st.ctx, ast.Store) and st.id == e.id:
+                    par = mod.parents.get(st)
+                    if not (isinstance(par, (ast.Assign, ast.AnnAssign, ast.For, ast.comprehension)) and (
+                            getattr(par, 'target', None) is st or st in getattr(par, 'targets', []))):
+                        return None          # bound some other way (unpacking, with, walrus, augmented): not followed
+                    continue
+                else:
+                    continue
+                n_defs += 1
+                if vals is None:
+                    return None
+                out |= vals
+            return out if n_defs else None
+        return None
+
+    def element_set(self, mod, fn, e, depth=0):
+        """The finite set of constants an iteration over `e` can yield."""
+        v = self.inv.folder.try_ev(mod.name, e, default=None)
+        if isinstance(v, (tuple, list, set, frozenset, dict)):
+            vals = list(v)
+            return set(vals) if all(isinstance(x, (str, int, bool, float, bytes)) for x in vals) else None
+        if isinstance(e, ast.Attribute):
+            # a field of a NamedTuple record of the package: the union over every construction site of the class
+            t = self.ctx.types.type_of(mod.name, e.value)
+            full = None
+            for i in (self.ctx.types.items(t) if t is not None else []):
+                fb = getattr(i, 'partial_fallback', None)
+                if fb is not None and fb.type.fullname.startswith('soupsieve.'):
+                    full = fb.type.fullname
+            if full is None:
+                return None
+            cq = full[len('soupsieve.'):]
+            mn, _, cn = cq.partition('.')
+            cmod = self.ctx.src.mods.get(mn)
+            cnode = cmod.classes.get(cn) if cmod is not None else None
+            if cnode is None:
+                return None
+            fields = [st.target.id for st in cnode.body if isinstance(st, ast.AnnAssign) and isinstance(st.target, ast.Name)]
+            if e.attr not in fields:
+                return None
+            idx = fields.index(e.attr)
+            out = set()
+            n_sites = 0
+            for m2 in self.ctx.src.mods.values():
+                for c in ast.walk(m2.tree):
+                    if isinstance(c, ast.Call) and self.ctx.src.resolve_class_ref(m2, c.func) == cq:
+                        arg = c.args[idx] if idx < len(c.args) and not any(isinstance(a, ast.Starred) for a in c.args) else next(
+                            (k.value for k in c.keywords if k.arg == e.attr), None)
+                        vals = self.inv.folder.try_ev(m2.name, arg, default=None) if arg is not None else None
+                        if not isinstance(vals, (tuple, list)) or not all(isinstance(x, (str, int, bool, float, bytes)) for x in vals):
+                            return None
+                        out |= set(vals)
+                        n_sites += 1
+                    elif isinstance(c, ast.Attribute) and c.attr in ('_replace', '_make') and self.ctx.types.type_of(m2.name, c.value) is not None:
+                        t2 = self.ctx.types.type_of(m2.name, c.value)
+                        if any(getattr(i, 'partial_fallback', None) is not None and i.partial_fallback.type.fullname == full
+                               for i in self.ctx.types.items(t2)):
+                            return None
+            return out if n_sites else None
+        if isinstance(e, ast.Name):
+            return None
+        return None
 
     def dt_names(self, mod):
         out = set()
